@@ -1,6 +1,4 @@
 import Scfg
-import Scfg.Model.Edit
-import Scfg.Model.EditSpec
 /-!
 # Line-protocol driver (glue)
 
@@ -28,6 +26,14 @@ def parseNg (s : String) : Except String Model.NameGen :=
       | some i => pure (k, i)
       | none => throw s!"bad ng {p}"
     | none => throw s!"bad ng {p}"
+
+def parseReqs (s : String) : Except String (List Model.Req) :=
+  (lstOf s).mapM fun p => match p.splitOn ":" with
+    | ["b", k] => pure (Model.Ns.block, k)
+    | ["r", k] => pure (Model.Ns.region, k)
+    | ["v", k] => pure (Model.Ns.var, k)
+    | _ => throw s!"bad request {p}"
+where lstOf (s : String) : List String := if s == "-" then [] else splitList s
 
 def printNg (ng : Model.NameGen) : String :=
   if ng.isEmpty then "-" else commaJoin (ng.map fun p => s!"{p.1}={p.2}")
@@ -87,6 +93,15 @@ def step (st : DState) (line : String) : DState × String :=
   | ["SPEC", "insert_ctl", c, new, ps, ss] =>
     (st, bit (Model.insertCtlSpecOK st.g st.h c new (lst ps) (lst ss)))
   | ["SPEC", "join_returns", c] => (st, bit (Model.joinReturnsSpecOK st.g st.h c))
+  | ["NG", ng, reqs] => match parseNg ng, parseReqs reqs with
+    | .ok n, .ok rs =>
+      let names := Model.runNames n rs
+      let final := rs.foldl (fun g r => (Model.request g r).2) n
+      (st, s!"{commaJoin names} {printNg final}")
+    | _, _ => (st, "bad-request")
+  | ["PREFIXOK", reqs] => match parseReqs reqs with
+    | .ok rs => (st, bit (Model.prefixesOK rs))
+    | .error _ => (st, "bad-request")
   | ["S", h, ng] => match parseHier h, parseNg ng with
     | .ok hh, .ok n => ({ st with m := { H := hh, ng := n } }, "ok")
     | .error e, _ => (st, s!"parse-error {e}")
